@@ -33,6 +33,7 @@ mod g_reader;
 mod g_tsig;
 mod g_writer;
 mod g_server;
+mod g_srvscan;
 mod g_srvsafe;
 mod g_srvtsig;
 mod g_zonefile;
@@ -71,6 +72,10 @@ fn main() {
             "tsig" => g_tsig::gen(&mut rng, thorough, &mut em),
             "writer" => g_writer::gen(&mut rng, thorough, &mut em),
             "server" => g_server::gen(&mut rng, thorough, &mut em),
+            "srvhdr" => g_srvscan::gen_hdr(&mut rng, thorough, &mut em),
+            "srvzone" => g_srvscan::gen_zone_sel(&mut rng, thorough, &mut em),
+            "srvform" => g_srvscan::gen_form(&mut rng, thorough, &mut em),
+            "srvedns" => g_srvscan::gen_edns(&mut rng, thorough, &mut em),
             "srvsafe" => g_srvsafe::gen(&mut rng, thorough, &mut em),
             "srvtsig" => g_srvtsig::gen(&mut rng, thorough, &mut em),
             "serverdbg" => g_server::debug_big(&mut rng),
